@@ -37,7 +37,7 @@ struct SliceStats {
 }
 
 /// Evaluate one form in slices; returns the result and the number of suspensions.
-fn eval_sliced(s: &mut SutSession, form: &Sx, budgets: &[usize], whole_ticks: u64, st: &mut SliceStats) -> Result<FormResult, (String, String)> {
+fn eval_sliced(s: &mut SutSession, form: &Sx, budgets: &[usize], whole_ticks: u64, st: &mut SliceStats, gc_at_pause: bool) -> Result<FormResult, (String, String)> {
     let text = form.to_string();
     let vm = &mut s.vm;
     let r = guard(|| -> Result<FormResult, (String, String)> {
@@ -70,6 +70,11 @@ fn eval_sliced(s: &mut SutSession, form: &Sx, budgets: &[usize], whole_ticks: u6
                 Ok(None) => {
                     resumes += 1;
                     st.suspensions += 1;
+                    if gc_at_pause {
+                        // a pause is a collection point (run_count collects when the heap is
+                        // >= 75% full): force it, through the real run_gc
+                        vm.verif_force_gc();
+                    }
                     // progress: with every budget >= 1 the evaluation needs at most as many
                     // resumes as the uninterrupted run has instructions (+ slack)
                     if resumes > whole_ticks + 8 {
@@ -97,7 +102,7 @@ fn same(a: &FormResult, b: &FormResult) -> bool {
     }
 }
 
-fn check(ctx: &Ctx, forms: &[Sx], globals: &[String], budgets: &[usize], label: &str) -> Outcome {
+fn check(ctx: &Ctx, forms: &[Sx], globals: &[String], budgets: &[usize], label: &str, gc_at_pause: bool) -> Outcome {
     // the reference interpreter (with its step budget) screens out programs that diverge
     // or leave the language the generators are sound for
     let ri = crate::session::run_ri(forms, 200_000);
@@ -106,7 +111,7 @@ fn check(ctx: &Ctx, forms: &[Sx], globals: &[String], budgets: &[usize], label: 
         return Outcome::Discard;
     }
     let forms = &forms[..ri.comparable.min(forms.len())];
-    let render = json!({"program": render_session(forms), "budgets": budgets, "globals": globals});
+    let render = json!({"program": render_session(forms), "budgets": budgets, "globals": globals, "collect_at_every_pause": gc_at_pause});
     let mut a = SutSession::new(RunOpts::default());
     let mut b = SutSession::new(RunOpts::default());
     let mut st = SliceStats { suspensions: 0, max_ticks_over_budget: i64::MIN };
@@ -120,7 +125,7 @@ fn check(ctx: &Ctx, forms: &[Sx], globals: &[String], budgets: &[usize], label: 
             ctx.discard("uninterrupted run over budget or panicked");
             return Outcome::Discard;
         }
-        let rb = match eval_sliced(&mut b, f, budgets, ticks, &mut st) {
+        let rb = match eval_sliced(&mut b, f, budgets, ticks, &mut st, gc_at_pause) {
             Ok(r) => r,
             Err((sig, detail)) => {
                 return Outcome::fail(sig, format!("form #{} `{}`: {}", i, f, detail), render);
@@ -145,7 +150,7 @@ fn check(ctx: &Ctx, forms: &[Sx], globals: &[String], budgets: &[usize], label: 
     // global effects
     for g in globals {
         let (ra, _) = a.eval_form(&Sx::sym(g));
-        let rb = match eval_sliced(&mut b, &Sx::sym(g), budgets, 16, &mut st) {
+        let rb = match eval_sliced(&mut b, &Sx::sym(g), budgets, 16, &mut st, gc_at_pause) {
             Ok(r) => r,
             Err((sig, detail)) => return Outcome::fail(sig, format!("probe of global {}: {}", g, detail), render),
         };
@@ -156,6 +161,9 @@ fn check(ctx: &Ctx, forms: &[Sx], globals: &[String], budgets: &[usize], label: 
     }
     if ctx.counting() {
         ctx.class(&format!("budgets:{}", label));
+        if gc_at_pause {
+            ctx.class("collection-forced-at-every-pause");
+        }
         ctx.class_n("suspensions", st.suspensions);
         ctx.class_n("instructions-uninterrupted", total_ticks);
         if st.suspensions >= 2 {
@@ -187,11 +195,12 @@ fn decode_budgets(c: &mut Choices) -> (Vec<usize>, &'static str) {
 fn case(ctx: &Ctx, bytes: &[u8]) -> Outcome {
     let mut c = Choices::new(bytes);
     let (budgets, label) = decode_budgets(&mut c);
+    let gc_at_pause = c.flip();
     let sess = {
         let mut g = Gen::new(&mut c, no_probe_cfg());
         g.session()
     };
-    check(ctx, &sess.forms, &sess.globals, &budgets, label)
+    check(ctx, &sess.forms, &sess.globals, &budgets, label, gc_at_pause)
 }
 
 impl Prop for C13 {
@@ -230,8 +239,10 @@ impl Prop for C13 {
             for b in 1..=64usize {
                 ctx.count(1);
                 ctx.beat();
-                if let Outcome::Fail { sig, detail, render } = check(ctx, &forms, &[], &[b], "exhaustive-constant") {
-                    ctx.report("program", render, &sig, &detail);
+                for gc in [false, true] {
+                    if let Outcome::Fail { sig, detail, render } = check(ctx, &forms, &[], &[b], "exhaustive-constant", gc) {
+                        ctx.report("program", render, &sig, &detail);
+                    }
                 }
             }
         }
@@ -245,7 +256,7 @@ impl Prop for C13 {
                 };
                 let budgets: Vec<usize> = payload["budgets"].as_array().map(|a| a.iter().filter_map(|x| x.as_u64()).map(|x| x as usize).collect()).unwrap_or_else(|| vec![1]);
                 let globals: Vec<String> = payload["globals"].as_array().map(|a| a.iter().filter_map(|x| x.as_str()).map(|x| x.to_string()).collect()).unwrap_or_default();
-                check(ctx, &forms, &globals, &budgets, "replay")
+                check(ctx, &forms, &globals, &budgets, "replay", payload["collect_at_every_pause"].as_bool().unwrap_or(false))
             }
             _ => case(ctx, &unhex(payload["bytes"].as_str().unwrap_or(""))),
         }
